@@ -43,6 +43,7 @@ import (
 	"istio.io/istio/pilot/pkg/xds/requestidextension"
 	"istio.io/istio/pkg/env"
 	"istio.io/istio/pkg/log"
+	"istio.io/istio/pkg/maps"
 	"istio.io/istio/pkg/wellknown"
 )
 
@@ -768,7 +769,7 @@ func buildCustomTagsFromProvider(node *model.Proxy, providerTags map[string]*tel
 	supportFormatterTag := node.VersionGreaterOrEqual(&model.IstioVersion{Major: 1, Minor: 29, Patch: 0})
 	hasFormatterTag := false
 
-	for tagName, tagInfo := range providerTags {
+	for tagName, tagInfo := range maps.SeqStable(providerTags) {
 		if tagInfo == nil {
 			log.Warnf("while building custom tags from provider, encountered nil custom tag: %s, skipping", tagName)
 			continue
